@@ -81,6 +81,7 @@ func runC11(s *core.Sim, tier string) RunInfo {
 	var subB, subC *p2p.Subscriber[*H]
 	var topicA *pubsub.Topic
 	var sB, sC header.Subscription[*H]
+	simhdr.Cfg.DecoderPanics = true
 	lateVerifier := s.Tape.Coin("late-verifier", 1, 6)
 	// configuration knob: the Subscriber under test with or without its metrics
 	withMetrics := s.Tape.Coin("subscriber-metrics", 1, 2)
